@@ -1283,6 +1283,83 @@ def fals_c05_text(text):
     return s, probs
 
 
+def mm_permute(mm, rng):
+    """the same molecule listed in another atom order, bonds in another order and orientation"""
+    n = mm.n()
+    perm = list(range(n))
+    rng.shuffle(perm)                 # atom i moves to position perm[i]
+    atoms = [None] * n
+    for i, a in enumerate(mm.atoms):
+        atoms[perm[i]] = list(a)
+    bonds = [[t, perm[u], perm[v]] if rng.random() < .5 else [t, perm[v], perm[u]] for t, u, v in mm.bonds]
+    rng.shuffle(bonds)
+    stars = [[t, perm[c], [perm[e] for e in rng.sample(es, len(es))]] for t, c, es in mm.stars]
+    rng.shuffle(stars)
+    return MM(atoms, bonds, stars, mm.family)
+
+
+def wide_mm(rng, size):
+    """a molecule whose atom numbers need three digits, with labels on atoms of every index width"""
+    am = gens.deep(rng, size)
+    am.zs = am.zs[:size]
+    am.edges = [e for e in am.edges if e[0] < size and e[1] < size][:999]
+    am.mass, am.rad = {}, {}
+    for i in rng.sample(range(am.n()), min(am.n(), 12)):
+        if rng.random() < .6:
+            am.mass[i] = rng.choice([13, 14, 100, 999])
+        else:
+            am.rad[i] = rng.randint(1, 3)
+    m = mm_of_am(am, rng, v2ok=True)
+    for a in m.atoms:
+        if abs(a[1]) > 15:
+            a[1] = -15
+    m.family = "wide"
+    return m
+
+
+def c01_descriptions(run, model):
+    """C01 at the level of molfile descriptions: one molecule, several V2000 / V3000 texts that differ in atom numbering,
+    bond listing order and bond direction (and spelling) -> one string"""
+    rng = run.sub_rng("c01/texts")
+    sc = scale_of(run)
+    t_end = time.time() + (45 if run.tier == "quick" else 600)
+    small = []
+    for mm in mm_stream(run.sub_rng("c01/mm"), 10 ** 9, v2ok=True, stars=False, nmax=30):
+        mm2 = MM([[a[0], a[1] if abs(a[1]) <= 15 else 0] + a[2:] for a in mm.atoms], mm.bonds, mm.stars, mm.family)
+        if v2ok(mm2) and mm2.n() >= 2:
+            small.append(mm2)
+        if len(small) >= 60 * sc:
+            break
+    wide = [wide_mm(rng, size) for size in ([120, 260] if run.tier == "quick" else [100, 101, 150, 260, 500, 999])]
+    for mm in wide + small:
+        if time.time() > t_end:
+            run.notes.append("C01 descriptions: time budget reached")
+            break
+        run.count("C01_text_atoms:" + size_bucket(mm.n()))
+        texts = [("V3000 plain", render3000(mm, rng))]
+        for k in range(4 if mm.n() < 100 else 3):
+            pm = mm_permute(mm, rng)
+            if k % 2 == 0:
+                texts.append(("V2000 renumbered", render2000(pm, rng, charge_mode="lines", grouping="random", order=True) if mm.n() >= 100
+                              else render2000(pm, rng, **random_knobs2(rng))))
+            else:
+                texts.append(("V3000 renumbered", render3000(pm, rng, **random_knobs3(rng))))
+        strings = []
+        for tag, text in texts:
+            run.evaluations += 1
+            correspond(run, model, "K2" if tag.startswith("V2000") else "K1", text, "C01:" + tag)
+            g, err = read_graph(text)
+            strings.append(impl.tucan_of(g) if g is not None else "reader raised " + err)
+        for (tag, text), s in zip(texts[1:], strings[1:]):
+            if s != strings[0]:
+                run.falsifier_hits.append({"property": "C01", "what": "two molfile descriptions of one molecule (%s vs %s) give different strings" % (texts[0][0], tag),
+                                           "key": "C01:text:" + tag, "case": {"kind": "C01-text", "text": texts[0][1], "text_b": text},
+                                           "extra": {"a": strings[0][:300], "b": s[:300]}})
+                break
+        if mm.n() >= 3:
+            run.nontrivial.add(digest(texts[0][1]))
+
+
 def c05_reader_stream(run, model):
     """texts (well-formed spellings and the malformed streams of both formats) through reader -> canonicalize -> serialize"""
     rng = run.sub_rng("c05/texts")
@@ -1916,6 +1993,9 @@ def replay_text(run, model, hit):
         probs, _, _ = fals_c09_graph(graph_of_json(case["graph"]))
     elif kind == "C09-pipeline":
         probs, _ = fals_c09_pipeline(case["tucan"], case.get("calc", False))
+    elif kind == "C01-text":
+        a, b = tucan_of_text(case["text"]), tucan_of_text(case["text_b"])
+        probs = [] if (a == b and a[0] is not None) else ["strings differ: %s / %s" % (str(a)[:200], str(b)[:200])]
     elif kind == "C05-text":
         _, probs = fals_c05_text(case["text"])
     elif kind == "C06":
